@@ -176,7 +176,11 @@ func genC19(c *Ctx) error {
 func c19Case(c *Ctx, idx int) error {
 	rng := c.Rng
 	w := NewWorld()
-	if _, err := w.AddToken("TT", ChanOpts{}); err != nil {
+	// the token's number of decimals is a display property: fee shares and rates are fixed-point numbers with 8 digits
+	// whatever it is
+	decOff := []int{0, 0, -2, 2, -8, 10}[c.Rng.Intn(6)]
+	c.Count(fmt.Sprintf("token_decimals_%d", 8+decOff))
+	if _, err := w.AddToken("TT", ChanOpts{DecimalsOff: decOff}); err != nil {
 		return err
 	}
 	u1, u2, u3, u4, fa := w.NewAccount(fpb.KeyType_ed25519), w.NewAccount(fpb.KeyType_ed25519), w.NewAccount(fpb.KeyType_ed25519), w.NewAccount(fpb.KeyType_ed25519), w.NewAccount(fpb.KeyType_ed25519)
